@@ -394,3 +394,23 @@ Example C19_downgrade_split_merge_model :
     = [[1; 0]; [3; 0]]%N /\
   oplog [tok_sem_new 3%N [0%N]] [[TAcq 70%N false 0 2%N; TAcq 70%N false 0 1%N; TMerge 0; TRel 0; TSemInfo 0]] 76%N = [[3; 0]%N].
 Proof. repeat split; vm_compute; reflexivity. Qed.
+
+(* ================================================================== *)
+(* 8. OnceCell (model only: Semaphore::new(1) + the cell; the contract  *)
+(*    is judged by the oracle of tools/toklayer.py)                     *)
+(* ================================================================== *)
+(* two tasks race get_or_init with different values and initialisers that yield, a third sets: under every script of four
+   binary choices the run passes and every get_or_init / get of the run reports one and the same value *)
+Definition oc_bodies : list (list top) :=
+  [[TSpawnA 1; TOcInit 0 5%N 1 true; TOcGet 0; TAwaitA 0]; [TOcInit 0 6%N 1 true; TOcSet 0 9%N; TOcGet 0]].
+Definition oc_values (script : list (option nat)) : list N :=
+  let w := fst (fst (run_tok 4000 MSNone oc_new oc_bodies script 1%N)) in
+  flat_map (fun ev => match ev with
+                      | EvOp _ 119%N [1%N; v] _ => [v]
+                      | EvOp _ 118%N [1%N; v] _ => [v]
+                      | _ => [] end) (rev (w_trace w)).
+Definition all_equal (l : list N) : bool := match l with [] => false | x :: r => forallb (N.eqb x) r end.
+Example C19_oncecell_one_value_all_scripts :
+  forallb (fun s => match verdict oc_new oc_bodies s with OPass => true | _ => false end) scripts4 = true /\
+  forallb (fun s => all_equal (oc_values s) && Nat.eqb (length (oc_values s)) 4) scripts4 = true.
+Proof. split; vm_compute; reflexivity. Qed.
